@@ -52,7 +52,7 @@ def modify(root, name, clock, rng):
     p = os.path.join(root, name)
     if not os.path.lexists(p):
         return False
-    kind = rng.choice(["rewrite", "touch", "replace", "add_child"])
+    kind = rng.choice(["rewrite", "touch", "replace", "add_child", "restore_older"])
     target = p
     if os.path.isdir(p):
         kids = sorted(os.listdir(p))
@@ -69,6 +69,12 @@ def modify(root, name, clock, rng):
         os.replace(tmp, target)
     elif kind == "rewrite":
         open(target, "wb").write(os.urandom(5))
+    elif kind == "restore_older":
+        # an in-place overwrite that carries an OLDER timestamp (cp -p, tar -x, restore from backup): same inode, mtime goes back
+        open(target, "wb").write(os.urandom(6))
+        old_t = clock[0] - rng.randint(1000, 100000)
+        os.utime(target, (old_t, old_t))
+        return True
     clock[0] += 1
     os.utime(target, (clock[0], clock[0]))
     return True
@@ -83,7 +89,12 @@ def run_history(rng):
         recorded, dirty, log = set(), set(), []
         try:
             for _ in range(rng.randint(3, 12)):
-                op, name = rng.choice(["make", "make", "record", "record", "modify", "remove"]), rng.choice(NAMES)
+                op, name = rng.choice(["make", "make", "record", "record", "record", "modify", "modify", "modify", "remove"]), rng.choice(NAMES)
+                if op in ("modify", "remove") and recorded and rng.random() < 0.7:
+                    name = rng.choice(sorted(recorded))  # the interesting histories touch what the state recorded
+                if op == "record" and rng.random() < 0.5:
+                    existing = [n for n in NAMES if os.path.lexists(os.path.join(root, n))]
+                    name = rng.choice(existing) if existing else name
                 p = os.path.join(root, name)
                 if op == "make":
                     make(root, name, clock, rng)
